@@ -220,6 +220,12 @@ OnClassify(c, m, ev) ==
     LET m1 == Checks(m, <<
           <<m.phase = "inv" /\ m.lastout \in {"exc", "excsame"} /\ ev.n = m.lastobj,
                                            "C03:exception-classified-out-of-turn">>,
+          \* an attempt that returned a value has succeeded or failed by its result: nothing of the
+          \* library's own making may turn it into an exception-caused failure
+          <<~(m.phase = "inv" /\ m.lastout \in {"ok", "res"}),
+                                           "C11:returned-value-reported-as-exception">>,
+          <<~(m.phase = "inv" /\ m.lastout \in {"ok", "res"}),
+                                           "C04:returned-value-reported-as-exception">>,
           <<~m.cancelOn,                   "C13:cancellation-classified">>,
           <<~m.abortReq,                   "C13:work-after-abort-request">> >>)
     IN  Failed(c, m1, ev.k, "exception", ev.ra, ev.n, ev.t + ev.dur)
